@@ -349,6 +349,10 @@ def run_direct(desc):
                 elif kind < 0.3 and p.children:
                     s = canon(rng.choice(p.children)._sprout_seed.genome)
                     x = (s * (1 + 1e-7)).tolist()  # near-duplicate (grey zone: not judged)
+                elif kind < 0.45 and p.level + 1 < len(tree.levels) and len(tree.levels[p.level + 1]) >= 2:
+                    # every coordinate taken from *some* existing seed of the target level, but from different ones: a new point
+                    seeds_ = [canon(d_._sprout_seed.genome) for d_ in tree.levels[p.level + 1] if d_._sprout_seed is not None]
+                    x = [float(rng.choice(seeds_)[j]) for j in range(dim)]
                 else:
                     x = rand_x()
                 inds.append(mk_ind(x, fit))
